@@ -52,7 +52,13 @@ func c10Locate(i int) (int, int) {
 // ReadFile terminates without panicking, and if it reports success both on
 // the text and on the text followed by one more definition, that definition
 // is in the File (nothing after the splice was silently dropped).
-func C10A(shard, nshards, k int) {
+func C10A(shard, nshards, k int) { c10Window(shard, nshards, k, false) }
+
+// C10R: the same with k arbitrary bytes *replacing* k bytes of the schema at
+// every offset (so a delimiter can disappear, not only be preceded by junk).
+func C10R(shard, nshards, k int) { c10Window(shard, nshards, k, true) }
+
+func c10Window(shard, nshards, k int, replace bool) {
 	total := c10Positions()
 	per := (total + nshards - 1) / nshards
 	i := shard + nshards*vstub.Choose(0, per-1)
@@ -62,19 +68,29 @@ func C10A(shard, nshards, k int) {
 	h, p := c10Locate(i)
 	host := c10Hosts[h].text
 	t := vstub.NondetBytes(k)
-	x := append(append(append([]byte{}, host[:p]...), t...), host[p:]...)
+	rest := p
+	id := "c10.dropped/"
+	if replace {
+		if p+k > len(host) {
+			return
+		}
+		rest = p + k
+		id = "c10.replaced.dropped/"
+	}
+	x := append(append(append([]byte{}, host[:p]...), t...), host[rest:]...)
 	vstub.SetLoopBudget(64*len(x) + 2048)
 	_, _, e1 := bebop.ReadFile(reader(x))
 	y := append(append([]byte{}, x...), c10Tail...)
 	f2, _, e2 := bebop.ReadFile(reader(y))
 	if e1 == nil && e2 == nil {
-		vstub.Assert("c10.dropped/"+c10Hosts[h].name, hasTail(f2))
+		vstub.Assert(id+c10Hosts[h].name, hasTail(f2))
 	}
 	vstub.Reach("c10a")
 }
 
-// C10B: the reader fails with a non-EOF error after k bytes: ReadFile must
-// return an error (and not panic).
+// C10B: the reader fails with a non-EOF error after k bytes - for good, or
+// once (later reads deliver the rest): ReadFile must return an error (and
+// not panic).
 func C10B(shard, nshards int) {
 	total := c10Positions()
 	per := (total + nshards - 1) / nshards
@@ -88,6 +104,7 @@ func C10B(shard, nshards int) {
 	fr.FailAt = p
 	fr.Err = vstub.ErrFault
 	fr.EarlyErr = vstub.Choose(0, 1) == 1
+	fr.Transient = vstub.Choose(0, 1) == 1
 	vstub.SetLoopBudget(64*len(c10Hosts[h].text) + 2048)
 	_, _, err := bebop.ReadFile(fr)
 	if p < len(c10Hosts[h].text) {
